@@ -39,6 +39,7 @@ type Raise struct{ E *ErrV }
 type Cell struct {
 	V     Val
 	Const bool
+	Unset bool // sessions: declared by a piece that failed before the declaration ran
 }
 
 type Env struct {
@@ -572,11 +573,23 @@ func (in *Interp) assign(s *lang.N, env *Env) *Raise {
 	switch t.K {
 	case lang.EIdent:
 		c := env.lookup(t.S)
+		if c == nil && in.DeepFails {
+			// sessions: assignment to a name whose declaration did not run: it is declared now
+			c = &Cell{}
+			in.globals.vars[t.S] = c
+			if s.Op != "=" {
+				return raise("eval", "global variable has no value")
+			}
+		}
+		if c.Unset && s.Op != "=" {
+			return raise("eval", "global variable has no value")
+		}
 		v, r := compute(func() (Val, *Raise) { return c.V, nil })
 		if r != nil {
 			return r
 		}
 		c.V = v
+		c.Unset = false
 		return nil
 	case lang.EIndex:
 		cont, r := in.expr(t.A[0], env)
@@ -650,10 +663,18 @@ func (in *Interp) expr(e *lang.N, env *Env) (Val, *Raise) {
 		return nil, nil
 	case lang.EIdent:
 		if c := env.lookup(e.S); c != nil {
+			if c.Unset {
+				return nil, raise("eval", "global variable has no value")
+			}
 			return c.V, nil
 		}
 		if isBuiltin(e.S) {
 			return &Builtin{e.S}, nil
+		}
+		if in.DeepFails {
+			// sessions: a name that an earlier, failed piece declared after the point where it failed. The
+			// compiler knows it, nothing was assigned: reading it is an error of that piece, not a crash
+			return nil, raise("eval", "global variable has no value")
 		}
 		panic("refsem: unresolved identifier " + e.S + " (static check should have rejected)")
 	case lang.EGroup:
@@ -1737,10 +1758,11 @@ func (s *Session) Piece(prog []*lang.N, syntaxError bool) (out Outcome) {
 	if s.in.unspec || (rs != nil && outsideClasses[rs.E.Class]) {
 		return Outcome{Unspec: true}
 	}
-	// names the piece declared but never assigned (it failed before reaching them) read as nil afterwards
+	// names the piece declared but never assigned (it failed before reaching them) are known and have no
+	// value: reading one is an error of the piece that reads it, assigning to it gives it a value
 	for name := range trial.vars {
 		if _, ok := s.in.globals.vars[name]; !ok {
-			s.in.globals.vars[name] = &Cell{Const: trial.consts[name]}
+			s.in.globals.vars[name] = &Cell{Const: trial.consts[name], Unset: true}
 		}
 	}
 	if rs != nil {
@@ -1756,7 +1778,7 @@ func (s *Session) Piece(prog []*lang.N, syntaxError bool) (out Outcome) {
 func (s *Session) Globals() map[string]string {
 	out := map[string]string{}
 	for k, c := range s.in.globals.vars {
-		if _, isFn := c.V.(*Fn); isFn {
+		if _, isFn := c.V.(*Fn); isFn || c.Unset {
 			continue
 		}
 		out[k] = Show(c.V)
